@@ -9,8 +9,12 @@ shim of the same compiler (same square-root algorithm, probed).
 """
 import os, re, struct, subprocess, ctypes, math, concurrent.futures as cf
 
-TYPES = ["int8_t", "int16_t", "int32_t", "int64_t", "uint8_t", "uint16_t", "uint32_t", "uint64_t", "float", "double"]
-TBITS = [8, 16, 32, 64, 8, 16, 32, 64]
+TYPES = ["int8_t", "int16_t", "int32_t", "int64_t", "uint8_t", "uint16_t", "uint32_t", "uint64_t", "float", "double", "fixed_t", "long long", "unsigned long long", "char"]
+TBITS = [8, 16, 32, 64, 8, 16, 32, 64, 0, 0, 0, 64, 64, 8]
+INT_TYPES = [0, 1, 2, 3, 4, 5, 6, 7, 11, 12]
+ALL_TYPES = INT_TYPES + [8, 9]
+def is_int(t): return t in INT_TYPES
+def is_signed(t): return t < 4 or t in (11, 13)
 FX_NAN = 0x7fffffffffffffff
 FX_MAX = FX_NAN - 1
 
@@ -42,18 +46,22 @@ def i64lit(v):
 def int_value(t, bits):
     w = TBITS[t]
     bits &= (1 << w) - 1
-    if t < 4 and bits >= 1 << (w - 1):
+    if is_signed(t) and bits >= 1 << (w - 1):
         bits -= 1 << w
     return bits
 
 def typed_lit(t, bits):
     """C++ literal of type TYPES[t] carrying the given bit pattern; None when it cannot be written as a constant."""
-    if t < 8:
+    if is_int(t):
         v = int_value(t, bits)
         if t == 7:
             return f"UINT64_C({v})"
+        if t == 12:
+            return f"{v}ULL"
         if t == 3:
             return i64lit(v)
+        if t == 11:
+            return "(-9223372036854775807LL-1)" if v == -(1 << 63) else f"{v}LL"
         return f"static_cast<{TYPES[t]}>({v})"
     if t == 8:
         f = struct.unpack("<f", struct.pack("<I", bits & 0xffffffff))[0]
@@ -112,10 +120,12 @@ PRELUDE += f"template<int = 0> constexpr i64 W_hypot(i64 a, i64 b) {{ return {BI
 PRELUDE += "#endif\n"
 PRELUDE_LINES = PRELUDE.count("\n")
 
+def _ename(x): return x.replace(' ', '_')
+
 class Case:
     __slots__ = ("entry", "expr", "rt", "sqrt_dep", "dbl", "desc", "res32")
     def __init__(self, entry, expr, rt, desc, sqrt_dep=False, dbl=False, res32=False):
-        self.entry, self.expr, self.rt, self.desc, self.sqrt_dep, self.dbl, self.res32 = entry, expr, rt, desc, sqrt_dep, dbl, res32
+        self.entry, self.expr, self.rt, self.desc, self.sqrt_dep, self.dbl, self.res32 = _ename(entry), expr, rt, desc, sqrt_dep, dbl, res32
 
 def s_set(w, r, with_nan=True):
     """The same S(w,r) alphabet as the explorer (without the anchors that are irrelevant here) plus a few anchors."""
@@ -143,7 +153,7 @@ def small_set():
     return sorted(v)
 
 def type_values(t, thorough):
-    if t < 8:
+    if is_int(t):
         w = TBITS[t]
         vals = {0, 1, 2, 3, 7, 90, 104, 105, 127, 128, 180, 200, 255, 256, 360, 361, 32767, 32768, 65535, 65536, 2147483647, 2147483648, 4294967295, 4294967296, (1 << 62), (1 << 63) - 1, 1 << 63, (1 << 64) - 1, (1 << 63) + 2,
                 -1, -2, -90, -128, -129, -360, -361, -32768, -2147483647, -2147483648, -(1 << 63), -(1 << 62)}
@@ -185,15 +195,15 @@ def gen_cases(tier, sqrt_available):
         for a in sm:
             for r in (-(1 << 31), -1, 0, 1, 15, 16, 17, 31, 32, 47, 48, 62, 63):
                 cases.append(Case("shl" if left else "shr", f"W_{'shl' if left else 'shr'}({i64lit(a)}, {r if r != -(1 << 31) else '(-2147483647-1)'})", ("shift", left, a, r), f"raw {a} {'<<' if left else '>>'} {r}"))
-    for t in range(10):
+    for t in ALL_TYPES:
         tv = type_values(t, th)
         for how in range(3):
             for b in tv:
                 lit = typed_lit(t, b)
-                cases.append(Case(f"from_{TYPES[t]}", f"W_from<{how},{TYPES[t]}>({lit})", ("from_int" if t < 8 else "from_fp", how, t, b), f"how={how} {TYPES[t]} bits {b:#x}"))
-        for how in range(3 if t < 8 else 2):
+                cases.append(Case(f"from_{TYPES[t].replace(' ','_')}", f"W_from<{how},{TYPES[t]}>({lit})", ("from_int" if is_int(t) else "from_fp", how, t, b), f"how={how} {TYPES[t]} bits {b:#x}"))
+        for how in range(3 if is_int(t) else 2):
             for a in sm:
-                cases.append(Case(f"to_{TYPES[t]}", f"W_to<{how},{TYPES[t]}>({i64lit(a)})", ("to_int" if t < 8 else "to_fp", how, t, a), f"how={how} raw {a} -> {TYPES[t]}", dbl=(t == 9), res32=(t == 8)))
+                cases.append(Case(f"to_{TYPES[t].replace(' ','_')}", f"W_to<{how},{TYPES[t]}>({i64lit(a)})", ("to_int" if is_int(t) else "to_fp", how, t, a), f"how={how} raw {a} -> {TYPES[t]}", dbl=(t == 9), res32=(t == 8)))
         for op in range(4):
             for order in range(3):
                 if t == 9 and order == 2:
@@ -202,10 +212,10 @@ def gen_cases(tier, sqrt_available):
                     for b in tv:
                         cases.append(Case(f"mixed{MIX_OPS[op]}_{TYPES[t]}", f"W_mix<{op},{order},{TYPES[t]}>({i64lit(a)}, {typed_lit(t, b)})", ("mixed", op, t, order, a, b),
                                           f"raw {a} {MIX_OPS[op]} {TYPES[t]} bits {b:#x} order {order}", dbl=(t == 9)))
-        if t < 8:
+        if is_int(t):
             for b in tv:
                 cases.append(Case(f"angle_to_radians_{TYPES[t]}", f"W_a2r<{TYPES[t]}>({typed_lit(t, b)})", ("a2r", t, b), f"{TYPES[t]} bits {b:#x}"))
-        if t < 9:
+        if t != 9:
             for fn in range(3):
                 for b in tv:
                     cases.append(Case(f"xangle{fn}_{TYPES[t]}", f"W_xangle<{fn},{TYPES[t]}>({typed_lit(t, b)})", ("xangle", fn, t, b), f"fn={fn} {TYPES[t]} bits {b:#x}"))
